@@ -76,3 +76,27 @@ def general(rng, frames, **over):
 def batch(seed, n, frames, fam=general, **over):
     rng = random.Random(seed)
     return [fam(rng, frames, **dict(over)) for _ in range(n)]
+
+
+def tight(rng, frames, **over):
+    """Latency about as long as the prediction window, every input mispredicted: calls stall at the
+    prediction limit and the awaited inputs arrive one or two frames at a time, so rollbacks are
+    shallow and hit frames at which a stall just happened."""
+    w = over.pop("window", None) or rng.choice([1, 2, 2, 3, 4])
+    p = general(rng, frames, window=w, npeers=over.pop("npeers", 2), **over)
+    for pc in p["cfg"]["peers"]:
+        pc["delay"] = rng.choice([0, 0, 0, 1])
+    p["tick_ms"] = [16 for _ in p["tick_ms"]]
+    if rng.random() < 0.5:
+        p["tick_ms"][rng.randrange(len(p["tick_ms"]))] = rng.choice([15, 17, 18])
+    base = 16 * w
+    p["lat_lo"] = max(0, base - rng.choice([4, 10, 20]))
+    p["lat_hi"] = base + rng.choice([4, 10, 20])
+    p["jitter"] = rng.choice([0, 1, 3])
+    p["loss"] = rng.choice([0.0, 0.0, 0.05, 0.15])
+    p["dup"] = 0.0
+    p["alphabet"] = 16
+    p["change"] = rng.choice([0.6, 1.0])
+    p["p_pause"] = 0.0
+    p["p_poll"] = rng.choice([0.0, 0.3])
+    return p
